@@ -25,6 +25,13 @@ def check_case(case):
         m = gen.module(items)
     except Exception:  # noqa: BLE001
         return out, "unbuildable"
+    for prior_enc, prior_cfg in case.get("prior", []):
+        # replays only: what this process had encoded before (state shared between encoder classes)
+        try:
+            impl.make_encoder(prior_enc, **{k: v for k, v in prior_cfg.items() if v is not None}).encode(
+                gen.module(items))
+        except Exception:  # noqa: BLE001
+            pass
     try:
         enc = impl.make_encoder(encname, **{k: v for k, v in cfg.items() if v is not None})
         text = enc.encode(m)
@@ -45,9 +52,12 @@ def shard(spec):
     mods, combos = spec
     acc = Acc()
     for name, items in mods:
-        for encname, cfg in combos:
+        for ci, (encname, cfg) in enumerate(combos):
             case = {"items": items, "enc": encname, "cfg": cfg, "shape": name}
             vs, status = check_case(case)
+            if vs and ci and len(combos) <= 4:
+                for v in vs:
+                    v["case"] = dict(v["case"], prior=[[e, c] for e, c in combos[:ci]])
             acc.n += 1
             acc.outcomes[status] += 1
             if vs:
@@ -67,15 +77,22 @@ def run(ctx):
     dev1 = [(e, c) for e in impl.ENCODERS for c in modgen.configs(e, 1) if c]
     dev2 = [(e, c) for e in impl.ENCODERS for c in modgen.configs(e, 2) if len(c) == 2]
     specs = [(mods[i:i + 40], default) for i in range(0, len(mods), 40)]
+    specs += [(mods[i:i + 40], list(reversed(default))) for i in range(0, len(mods), 40)]
     sel = mods[::4] if ctx.quick else mods
     specs += [(sel[i:i + 12], dev1) for i in range(0, len(sel), 12)]
     core = [m for m in mods if m[0] in ("top", "wrap", "wrap-in-group", "tree", "tree-long", "in-object-group")]
     sel2 = core[::30] if ctx.quick else core[::5]
     specs += [(sel2[i:i + 3], dev2) for i in range(0, len(sel2), 3)]
-    acc = ctx.pmap(shard, specs)
+    import multiprocessing
+    import random
+    random.Random(ctx.seed).shuffle(specs)
+    acc = Acc()
+    with multiprocessing.get_context("fork").Pool(16, maxtasksperchild=1) as pool:     # one fresh process per shard
+        for r in pool.imap_unordered(shard, specs):
+            acc.merge(r)
     cov = {
         "evaluations": acc.n, "distinct_nontrivial": acc.nontrivial,
-        "rule": "%d modules (C01's generator) x 4 encoders at defaults; x %d single-option deviations on %s; x %d "
+        "rule": "%d modules (C01's generator) x 4 encoders at defaults in both encoder orders, one fresh process per shard; x %d single-option deviations on %s; x %d "
                 "two-option deviations on a core; each returned text read by the independent surface reader R5; "
                 "non-trivial = the encoder returned text and every listed rule was evaluated on it"
                 % (len(mods), len(dev1), "every 4th module" if ctx.quick else "all modules", len(dev2)),
